@@ -518,3 +518,102 @@ pub fn c11_eval(case: &FragCase, st: &mut RunStats) -> Vec<Violation> {
     }
     out
 }
+
+// ---------------------------------------------------------------- C16 (fragmented part)
+
+pub fn c16_eval_frag(case: &FragCase, st: &mut RunStats) -> Vec<Violation> {
+    let ex = exec::run_frag(case);
+    st.trace_hash = trace_hash_frag(&ex);
+    let mut out = frag_panics("C16", case, &ex);
+    if !out.is_empty() || !ex.build.is_ok() {
+        return out;
+    }
+    let mut queue: Vec<QSample> = Vec::new();
+    let mut any = false;
+    for (i, op) in case.ops.iter().enumerate() {
+        match (op, &ex.ops[i]) {
+            (FragOp::Write { pts, dts, data, sync }, FragRes::WriteOk) => queue.push(QSample { pts: *pts, dts: *dts, data: data.0.clone(), sync: *sync, op: i }),
+            (FragOp::Init, FragRes::Init(b)) => {
+                any = true;
+                match reader::parse_tree(b) {
+                    Err(e) => {
+                        out.push(v("C16", "box-size", format!("init:{}", normalise(&e.msg)), format!("init segment: {}", e)));
+                        return out;
+                    }
+                    Ok(tree) => {
+                        let mut probs = Vec::new();
+                        let m = reader::decode_movie(b, &tree, &mut probs);
+                        if let Some(t) = m.tracks.first() {
+                            if t.width.map(|w| w as u32) != Some(case.cfg.width) || t.height.map(|h| h as u32) != Some(case.cfg.height) {
+                                out.push(v("C16", "dimensions", if case.cfg.width > 65535 || case.cfg.height > 65535 { "init-sample-entry:over-65535" } else { "init-sample-entry:value" }, format!("init segment sample entry says {:?}x{:?}, configured {}x{}", t.width, t.height, case.cfg.width, case.cfg.height)));
+                                return out;
+                            }
+                            // parameter-set lengths inside avcC / hvcC must be exact
+                            let entry = &t.stsd_entry;
+                            let want: Vec<usize> = match case.cfg.codec {
+                                VCodec::H264 => vec![case.cfg.sps.as_ref().map(|h| h.0.len()).unwrap_or(0), case.cfg.pps.as_ref().map(|h| h.0.len()).unwrap_or(0)],
+                                VCodec::H265 => vec![case.cfg.vps.as_ref().map(|h| h.0.len()).unwrap_or(0), case.cfg.sps.as_ref().map(|h| h.0.len()).unwrap_or(0), case.cfg.pps.as_ref().map(|h| h.0.len()).unwrap_or(0)],
+                                _ => vec![],
+                            };
+                            if want.iter().any(|l| *l > u16::MAX as usize) {
+                                // a 16-bit length field cannot hold it: some call must have failed, but the init segment exists
+                                out.push(v("C16", "parameter-set-length", "init:set-over-65535-bytes", format!("init segment ({} byte sample entry) emitted although a parameter set of {:?} bytes does not fit its 16-bit length field", entry.len(), want)));
+                                return out;
+                            }
+                        }
+                    }
+                }
+            }
+            (FragOp::Flush, FragRes::Flushed(Some(b))) => {
+                any = true;
+                let (f, _) = match parse_segment(b) {
+                    Ok(x) => x,
+                    Err(e) => {
+                        out.push(v("C16", "box-size", format!("segment:{}", normalise(&e)), format!("media segment: {}", e)));
+                        return out;
+                    }
+                };
+                if f.samples.len() != queue.len() {
+                    return out;
+                }
+                let n = queue.len();
+                for k in 0..n {
+                    if k + 1 < n {
+                        let want = queue[k + 1].dts as i128 - queue[k].dts as i128;
+                        if f.samples[k].duration.map(|d| d as i128) != Some(want) {
+                            out.push(v("C16", "sample-duration", if want > u32::MAX as i128 { "frag:wrapped" } else { "frag:value" }, format!("op {}: trun duration {:?} of sample {} but the decode-time difference is {}", i, f.samples[k].duration, k, want)));
+                            return out;
+                        }
+                    }
+                    let want = queue[k].pts as i128 - queue[k].dts as i128;
+                    if f.samples[k].cts.map(|c| c as i128) != Some(want) {
+                        out.push(v("C16", "composition-offset", if want.abs() > i32::MAX as i128 { "frag:wrapped" } else { "frag:value" }, format!("op {}: trun composition offset {:?} of sample {} but pts-dts = {}", i, f.samples[k].cts, k, want)));
+                        return out;
+                    }
+                    if f.samples[k].size.map(|s| s as usize) != Some(queue[k].data.len()) {
+                        out.push(v("C16", "sample-size", "frag", format!("op {}: trun size {:?} of sample {}, {} bytes written", i, f.samples[k].size, k, queue[k].data.len())));
+                        return out;
+                    }
+                }
+                if f.base_decode_time as i128 != queue[0].dts as i128 {
+                    // the exact value is C11's business; here only truncation matters
+                    if (f.base_decode_time as i128 - queue[0].dts as i128).abs() >= (1i128 << 32) {
+                        out.push(v("C16", "base-decode-time", "frag:wrapped", format!("op {}: tfdt {} for first decode time {}", i, f.base_decode_time, queue[0].dts)));
+                        return out;
+                    }
+                }
+                let want_off = f.moof_size as i128 + 8;
+                if f.data_offset.map(|d| d as i128) != Some(want_off) {
+                    out.push(v("C16", "data-offset", "frag", format!("op {}: trun data offset {:?}, moof size + 8 = {}", i, f.data_offset, want_off)));
+                    return out;
+                }
+                queue.clear();
+            }
+            _ => {}
+        }
+    }
+    if any {
+        st.nontrivial = Some(abstract_frag(case, &ex, st));
+    }
+    out
+}
